@@ -29,6 +29,7 @@ fn presentation_opts(rng: &mut Rng) -> Vec<String> {
     if rng.chance(0.6) { a.push(format!("--update={}", rng.pick(&[-1i64, 0, 1, 3, 1000]))); }
     if rng.chance(0.3) { a.push(format!("--log-messages={}", rng.pick(&[17u32, 4, 20, 11]))); }
     if rng.chance(0.2) { a.push("--downlink-log=/dev/null".into()); }
+    if rng.chance(0.15) { a.push(format!("--error-log={}", rng.pick(&["/dev/null", "/dev/full"]))); }
     a
 }
 
